@@ -579,6 +579,14 @@ def run(ctx, report):
                 if isinstance(r, ast.BinOp) and type(r.op).__name__ == BINARY[op] and 'args[0]' in u(r.left) and u(r.right).startswith('args[1]') \
                         and 'mymaxuint[op_size]' in u(r.left):
                     good = True
+            bounded = any(isinstance(n, ast.If) and isinstance(n.test, ast.Compare) and len(n.test.ops) == 1 and isinstance(n.test.ops[0], (ast.GtE, ast.Gt))
+                          and u(n.test.comparators[0]) == 'op_size' and any(isinstance(x, ast.Return) and isinstance(x.value, ast.Constant) and x.value.value == 0 for x in n.body)
+                          for n in walk_no_nested(fn0))
+            if good and op == '<<' and not bounded:
+                R5.violation(inst + ':bound', 'denot:%s:unbounded-count' % op, '%s shifts by any constant count: a count of 2**32-1 builds an integer of 2**32 bits (seconds, gigabytes) before '
+                             'it is reduced to the operand width' % deal[op], where(ea, fn0), witness="eval_expr(ExprOp(%r, a, ExprInt32(0xFFFFFFFF))) with a constant" % op)
+            elif good and op == '<<':
+                R5.ok(inst + ':bound', sample='%r: a count >= op_size gives 0 without shifting' % op)
             if good:
                 R5.ok(inst, sample='%r: (args[0] & mask) %s args[1]' % (op, op))
             else:
